@@ -151,6 +151,10 @@ def gen_cases(rng, tier):
     st_d = [0, 6, 8, 10, 12, rng.randint(6, 12)] if q else [0, 1, 2, 4] + list(range(6, 17)) * 2 + [rng.randint(6, 16) for _ in range(8)] + [17, 18, 25, 200, 255]
     for d in st_d:
         L.append(case_line("store", fields_of("store", rng, q), d, muts=muts, mseed=ms()))
+    # solver walks that cross a power-of-two boundary of the nonce before reaching their first valid nonce (the driver searches ids for it)
+    for k, span, d in ((16, 200, 9), (24, 1500, 12), (32, 1500, 12), (32, 1500, 13)) if q else ((16, 300, 9), (16, 100, 8), (24, 2000, 11), (24, 3000, 12), (32, 3000, 12), (32, 3000, 12), (32, 6000, 13)):
+        for s in ("handshake", "announce"):
+            L.append("seek surface=%s k=%d span=%d tries=8000000 d=%d on=node muts=none " % (s, k, span, d) + " ".join("f.%s=%s" % (kk, hx(v)) for kk, v in fields_of(s, rng, True).items()))
     # given (unsolved) nonces: mostly the rejecting side, all difficulties
     for s in ("handshake", "announce", "store"):
         for _ in range(2 if q else 12):
